@@ -765,6 +765,26 @@ pub mod verif {
         }
     }
 
+    /// The analysis in the state the linearizer works with: the derived ranges are written
+    /// into a copy of the model's domain and the analysis is restricted to what that domain
+    /// carries (the two calls `Linearizer::linearize` makes after `analyze`). Returns the
+    /// analysis and the published `(lower, upper)` of every variable.
+    pub fn derived_bounds_as_used(model: &Model) -> (DerivedBounds, IndexMap<String, (f64, f64)>) {
+        let constraints = BoundsAnalyzer::lowered_constraints(model.constraints());
+        let mut analyzer = BoundsAnalyzer::analyze(model.domain(), &constraints);
+        let mut domain = model.domain().clone();
+        analyzer.apply_to_domain(&mut domain);
+        analyzer.restrict_to_domain(&domain);
+        let published = domain
+            .iter()
+            .map(|(name, variable)| {
+                let bounds = super::Bounds::from_variable_type(variable.get_type());
+                (name.clone(), (bounds.lower, bounds.upper))
+            })
+            .collect();
+        (DerivedBounds { analyzer }, published)
+    }
+
     /// Runs the analysis exactly as `Linearizer::linearize` does, optionally
     /// with a smaller propagation step limit.
     pub fn derived_bounds(model: &Model, max_steps: Option<usize>) -> DerivedBounds {
